@@ -33,6 +33,11 @@ type Src struct {
 	StallAt map[int]bool
 	Stalls  int
 
+	// IdleAt: stream offsets at which one Read returns (0, nil) before any byte at that
+	// offset is served (legal for an io.Reader, if discouraged); chunks never run across one.
+	IdleAt map[int]bool
+	Idles  int
+
 	Pos      int
 	Reads    int
 	ZeroRead int // number of Read calls with len(p)==0
@@ -71,8 +76,18 @@ func (s *Src) Read(p []byte) (int, error) {
 		s.Stalls++
 		return 0, ErrTransient
 	}
+	if s.IdleAt[s.Pos] {
+		delete(s.IdleAt, s.Pos)
+		s.Idles++
+		return 0, nil
+	}
 	n := len(p)
 	for off := range s.StallAt {
+		if off > s.Pos && off-s.Pos < n {
+			n = off - s.Pos
+		}
+	}
+	for off := range s.IdleAt {
 		if off > s.Pos && off-s.Pos < n {
 			n = off - s.Pos
 		}
